@@ -221,7 +221,10 @@ Section Run.
   Qed.
 
   Theorem exec_never_panics fuel E name : fst (exec fuel E name) <> RPanic.
-  Proof. unfold exec. destruct (assoc name (e_progs E)); [apply run_never_panics|cbn; discriminate]. Qed.
+  Proof.
+    unfold exec. destruct (assoc name (e_progs E)) as [c|]; [|cbn; discriminate].
+    pose proof (run_never_panics fuel E c true O []) as H. destruct (run fuel E c true 0 []) as [r lg]. exact H.
+  Qed.
 End Run.
 
 (* ---- the built-in table never answers with the panic outcome -------------------------------- *)
